@@ -180,6 +180,33 @@ func (s *c17Sched) goStates() map[uint64]string {
 	return out
 }
 
+// stackOf returns the frames of one goroutine from the last dump (diagnostics).
+func (s *c17Sched) stackOf(gid uint64) string {
+	b := s.stackBuf
+	hdr := []byte(fmt.Sprintf("goroutine %d ", gid))
+	i := bytes.Index(b, hdr)
+	if i < 0 {
+		return ""
+	}
+	b = b[i:]
+	if j := bytes.Index(b, []byte("\n\n")); j >= 0 {
+		b = b[:j]
+	}
+	var fns []string
+	for _, ln := range strings.Split(string(b), "\n")[1:] {
+		if !strings.HasPrefix(ln, "\t") && ln != "" {
+			if k := strings.IndexByte(ln, '('); k > 0 {
+				ln = ln[:k]
+			}
+			fns = append(fns, ln[strings.LastIndexByte(ln, '/')+1:])
+		}
+		if len(fns) >= 14 {
+			break
+		}
+	}
+	return strings.Join(fns, " < ")
+}
+
 func c17LockWait(state string) bool {
 	switch state {
 	// not "semacquire": that is also the state of a goroutine which wants to
@@ -204,6 +231,7 @@ const c17Grace = 150 * time.Microsecond
 func (s *c17Sched) settle(n int, deadline time.Time, states *map[string]string) (enabled []string, alldone, timedOut bool) {
 	known := map[string]bool{} // judged lock-blocked by the last dump
 	waited := false
+	polls := 0
 	timer := time.NewTimer(time.Hour)
 	defer timer.Stop()
 	for {
@@ -266,7 +294,18 @@ func (s *c17Sched) settle(n int, deadline time.Time, states *map[string]string) 
 			}
 			waited = false
 		}
-		if time.Now().After(deadline) {
+		polls++
+		if polls > 20000 && time.Now().After(deadline) {
+			// the watchdog needs both: the time is up AND this loop really polled
+			// that often (a stalled process or a jumping clock alone never expires it)
+			if states != nil {
+				st := s.goStates()
+				m := map[string]string{}
+				for _, t := range unsettled {
+					m[t] = "not settled: " + st[gids[t]] + " " + s.stackOf(gids[t])
+				}
+				*states = m
+			}
 			return enabled, false, true
 		}
 		if !timer.Stop() {
@@ -317,6 +356,7 @@ func (s *c17Sched) run(reqs []kit.Req, pol kit.Policy, hard time.Duration) c17Sc
 		}
 		if timedOut || len(out.Steps) >= 2000 {
 			out.TimedOut = true
+			out.States = states
 			break
 		}
 		if len(enabled) == 0 {
@@ -358,22 +398,63 @@ func (s *c17Sched) run(reqs []kit.Req, pol kit.Policy, hard time.Duration) c17Sc
 	return out
 }
 
-// free runs the requests as plain goroutines behind a start barrier.
-func (s *c17Sched) free(reqs []kit.Req) {
+// free runs the requests as plain goroutines behind a start barrier. Clients
+// that do not return are looked up in a goroutine dump: when every unfinished
+// client waits for a mutex they are deadlocked.
+func (s *c17Sched) free(reqs []kit.Req, hard time.Duration) (out c17SchedOut) {
 	var wg sync.WaitGroup
 	start := make(chan struct{})
+	ready := make(chan struct{}, len(reqs))
 	for _, r := range reqs {
 		wg.Add(1)
 		go func(r kit.Req) {
 			defer wg.Done()
 			gid := s.register(r.Tag)
 			defer s.finish(r.Tag, gid)
+			ready <- struct{}{}
 			<-start
 			r.Fn()
 		}(r)
 	}
+	for range reqs {
+		<-ready
+	}
 	close(start)
-	wg.Wait()
+	fin := make(chan struct{})
+	go func() { wg.Wait(); close(fin) }()
+	for polls := 0; ; polls++ {
+		select {
+		case <-fin:
+			return out
+		case <-time.After(time.Second):
+		}
+		s.mu.Lock()
+		live := map[string]uint64{}
+		for tag, gid := range s.gids {
+			if !s.done[tag] {
+				live[tag] = gid
+			}
+		}
+		s.mu.Unlock()
+		st := s.goStates()
+		all := len(live) > 0
+		states := map[string]string{}
+		for tag, gid := range live {
+			states[tag] = st[gid] + " " + s.stackOf(gid)
+			if !c17LockWait(st[gid]) {
+				all = false
+			}
+		}
+		out.States = states
+		if all {
+			out.Deadlock = true
+			return out
+		}
+		if time.Duration(polls)*time.Second > hard {
+			out.TimedOut = true
+			return out
+		}
+	}
 }
 
 // ------------------------------------------------------- gated storage
@@ -1376,7 +1457,31 @@ func c17COrderHash(order []string) string {
 
 // c17COne builds the scenario from scratch, runs the clients (under the gate
 // with pol, or free-running when pol is nil) and judges the execution.
-func c17COne(ctx context.Context, r *kit.Result, sc *c17CScen, id string, pol kit.Policy, yield func() bool) (c17SchedOut, bool) {
+// c17COne runs one case; a run whose watchdog expired is repeated once from
+// scratch (a watchdog is never a verdict) and is inconclusive when it expires
+// again.
+func c17COne(ctx context.Context, r *kit.Result, sc *c17CScen, id string, mkpol func() kit.Policy, yield func() bool) (c17SchedOut, bool) {
+	var pol kit.Policy
+	if mkpol != nil {
+		pol = mkpol()
+	}
+	out, cont := c17COneTry(ctx, r, sc, id, pol, yield)
+	if out.TimedOut {
+		r.Count("watchdog_retries", 1)
+		r.Note("%s: watchdog expired once (schedule %s; clients %v); run repeated", id, out.Schedule.String(), out.States)
+		if mkpol != nil {
+			pol = mkpol()
+		}
+		out, cont = c17COneTry(ctx, r, sc, id, pol, yield)
+		if out.TimedOut {
+			r.Inconc("%s: watchdog expired twice (schedule %s; clients %v)", id, out.Schedule.String(), out.States)
+			return out, false
+		}
+	}
+	return out, cont
+}
+
+func c17COneTry(ctx context.Context, r *kit.Result, sc *c17CScen, id string, pol kit.Policy, yield func() bool) (c17SchedOut, bool) {
 	u, err := c17CNewRun(ctx, r, id, sc)
 	if err != nil {
 		r.Inconc("%s: %v", id, err)
@@ -1388,7 +1493,7 @@ func c17COne(ctx context.Context, r *kit.Result, sc *c17CScen, id string, pol ki
 		out = u.sched.run(u.reqs(), pol, 30*time.Second)
 	} else {
 		u.sched.yield = yield
-		u.sched.free(u.reqs())
+		out = u.sched.free(u.reqs(), 60*time.Second)
 	}
 	u.sched.mu.Lock()
 	order := append([]string(nil), u.sched.order...)
@@ -1418,7 +1523,6 @@ func c17COne(ctx context.Context, r *kit.Result, sc *c17CScen, id string, pol ki
 		return out, true
 	}
 	if out.TimedOut {
-		r.Inconc("%s: watchdog expired (schedule %s)", id, out.Schedule.String())
 		return out, false
 	}
 	r.Count("schedules_explored:"+mode, 1)
@@ -1489,10 +1593,10 @@ func TestVerif_C17_ConcurrentGated(t *testing.T) {
 			for _, c := range f[4] {
 				script = append(script, string(c))
 			}
-			c17COne(ctx, r, sc, oc, kit.Script{Choices: script}, nil)
+			c17COne(ctx, r, sc, oc, func() kit.Policy { return kit.Script{Choices: script} }, nil)
 		} else {
 			q, _ := strconv.Atoi(f[4])
-			c17COne(ctx, r, sc, oc, c17CRandPol(seed, sc, q), nil)
+			c17COne(ctx, r, sc, oc, func() kit.Policy { return c17CRandPol(seed, sc, q) }, nil)
 		}
 		return
 	}
@@ -1508,7 +1612,7 @@ func TestVerif_C17_ConcurrentGated(t *testing.T) {
 		stop := false
 		ex.Explore(func(pol kit.Policy) (kit.Schedule, bool) {
 			id := fmt.Sprintf("tbc:%d:%d:x:%s", shard, sc.Idx, strings.Join(pol.(kit.Script).Choices, ""))
-			out, cont := c17COne(ctx, r, sc, id, pol, nil)
+			out, cont := c17COne(ctx, r, sc, id, func() kit.Policy { return pol }, nil)
 			if !cont {
 				stop = true
 			}
@@ -1523,7 +1627,7 @@ func TestVerif_C17_ConcurrentGated(t *testing.T) {
 		}
 		for q := 0; q < kit.N(10, 150); q++ {
 			id := fmt.Sprintf("tbc:%d:%d:r:%d", shard, sc.Idx, q)
-			c17COne(ctx, r, sc, id, c17CRandPol(seed, sc, q), nil)
+			c17COne(ctx, r, sc, id, func() kit.Policy { return c17CRandPol(seed, sc, q) }, nil)
 		}
 	}
 	r.Require("schedules_explored:gated", 2000)
